@@ -2,7 +2,7 @@
 # Runs the repository's pinned suite (guard off) and compares with /root/.vp/BASELINE.json stable_pass.
 out=${1:-/dev/shm/repo_tests}
 mkdir -p "$out"
-cd /repo && /venv/bin/python -m pytest -ra -q -p no:cacheprovider --timeout=900 --continue-on-collection-errors --junitxml="$out/junit.xml" > "$out/log.txt" 2>&1
+mkdir -p "$out/tmp"; cd /repo && TMPDIR="$out/tmp" /venv/bin/python -m pytest -ra -q -p no:cacheprovider --timeout=900 --continue-on-collection-errors --junitxml="$out/junit.xml" > "$out/log.txt" 2>&1
 /venv/bin/python - "$out/junit.xml" <<'PY'
 import json, sys, xml.etree.ElementTree as ET
 base = set(json.load(open("/root/.vp/BASELINE.json"))["stable_pass"])
